@@ -1091,3 +1091,148 @@ func (r *StoreRun) TraceCounts() map[string]int {
 	}
 	return out
 }
+
+// ---- the visible state through a warm (long-lived) handle ------------------------------
+
+// HandleView reads the visible state through client c's own long-lived handle (its journal
+// store caches, pool cache, commit caches are used as they are): pool list, name → id and
+// id → name resolution, branch list and tips per pool, snapshot of every tip.  problems lists
+// inconsistencies of the handle with itself (duplicate names, a listed name that does not
+// resolve to its id, a listed id that does not resolve to its name).
+func (r *StoreRun) HandleView(c int) (ps []StorePoolState, problems []string, err error) {
+	ctx := context.Background()
+	root := r.Roots[c]
+	perr, _ := Protect(func() error {
+		list, err := root.ListPools(ctx)
+		if err != nil {
+			return err
+		}
+		seenName := map[string]string{}
+		seenID := map[string]string{}
+		for _, pc := range list {
+			id := pc.ID.String()
+			if other, dup := seenName[pc.Name]; dup {
+				problems = append(problems, fmt.Sprintf("pool name %s listed twice (ids %s, %s)", pc.Name, other, id))
+			}
+			seenName[pc.Name] = id
+			if other, dup := seenID[id]; dup {
+				problems = append(problems, fmt.Sprintf("pool id %s listed twice (names %s, %s)", id, other, pc.Name))
+			}
+			seenID[id] = pc.Name
+			if got, err := root.PoolID(ctx, pc.Name); err != nil {
+				problems = append(problems, fmt.Sprintf("listed pool name %s does not resolve: %v", pc.Name, err))
+			} else if got != pc.ID {
+				problems = append(problems, fmt.Sprintf("pool name %s resolves to %s, listed with id %s", pc.Name, got, id))
+			}
+			p := StorePoolState{Name: pc.Name, ID: id, Key: storeKeyNum(storeKeyOfName(pc.Name)), Readable: true}
+			pool, err := root.OpenPool(ctx, pc.ID)
+			var bl []branches.Config
+			if err == nil {
+				if pool.Name != pc.Name {
+					problems = append(problems, fmt.Sprintf("pool id %s opens as %s, listed as %s", id, pool.Name, pc.Name))
+				}
+				bl, err = pool.ListBranches(ctx)
+			}
+			if err != nil {
+				p.Readable, p.Err = false, err.Error()
+				ps = append(ps, p)
+				continue
+			}
+			seenBranch := map[string]bool{}
+			for _, bc := range bl {
+				if seenBranch[bc.Name] {
+					problems = append(problems, fmt.Sprintf("branch name %s/%s listed twice", pc.Name, bc.Name))
+				}
+				seenBranch[bc.Name] = true
+				b := StoreBranchState{Name: bc.Name, Key: storeKeyNum(storeKeyOfName(bc.Name)), Tip: bc.Commit.String(), Readable: true}
+				if got, err := pool.LookupBranchByName(ctx, bc.Name); err != nil || got.Commit != bc.Commit {
+					problems = append(problems, fmt.Sprintf("branch %s/%s does not resolve to its listed tip", pc.Name, bc.Name))
+				}
+				snap, err := pool.Snapshot(ctx, bc.Commit)
+				if err != nil {
+					b.Readable, b.Err = false, err.Error()
+				} else {
+					for _, o := range snap.SelectAll() {
+						if n, ok := r.ObjName[o.ID.String()]; ok {
+							b.Objs = append(b.Objs, n)
+						} else {
+							b.Unknown = append(b.Unknown, o.ID.String())
+						}
+					}
+					sort.Ints(b.Objs)
+					sort.Strings(b.Unknown)
+				}
+				p.Branches = append(p.Branches, b)
+			}
+			sort.Slice(p.Branches, func(i, j int) bool { return p.Branches[i].Key < p.Branches[j].Key })
+			ps = append(ps, p)
+		}
+		return nil
+	})
+	sort.SliceStable(ps, func(i, j int) bool { return ps[i].Key < ps[j].Key })
+	return ps, problems, perr
+}
+
+// RenderStoreStateNoChain renders pools, branches, tips and object sets (no parent chains: a
+// handle view has none).
+func RenderStoreStateNoChain(ps []StorePoolState) []string {
+	var out []string
+	for _, p := range ps {
+		if !p.Readable {
+			out = append(out, fmt.Sprintf("pool %s %s unreadable: %s", p.Name, p.ID, p.Err))
+			continue
+		}
+		out = append(out, fmt.Sprintf("pool %s %s", p.Name, p.ID))
+		for _, b := range p.Branches {
+			if !b.Readable {
+				out = append(out, fmt.Sprintf("branch %s/%s tip %s unreadable: %s", p.Name, b.Name, b.Tip, b.Err))
+				continue
+			}
+			out = append(out, fmt.Sprintf("branch %s/%s tip %s objs %v unknown %v", p.Name, b.Name, b.Tip, b.Objs, b.Unknown))
+		}
+	}
+	return out
+}
+
+// CompareHandleWithCold compares the state seen through client c's warm handle with the state
+// seen by a cold handle; "" when they agree and the warm handle is consistent with itself.
+func (r *StoreRun) CompareHandleWithCold(c int) string {
+	n := r.E.TraceLen()
+	defer func() {
+		r.E.mu.Lock()
+		r.E.Trace = r.E.Trace[:n]
+		r.E.mu.Unlock()
+	}()
+	warm, problems, err := r.HandleView(c)
+	if err != nil {
+		return fmt.Sprintf("warm handle of client %d cannot list the lake: %v", c, err)
+	}
+	if len(problems) > 0 {
+		return fmt.Sprintf("warm handle of client %d is inconsistent with itself: %s", c, strings.Join(problems, "; "))
+	}
+	cold, err := r.Observe()
+	if err != nil {
+		return fmt.Sprintf("cold handle cannot list the lake: %v", err)
+	}
+	a, b := RenderStoreStateNoChain(warm), RenderStoreStateNoChain(cold)
+	if d := DiffStoreSections([]string{"state"}, [][]string{a}, [][]string{b}); d != "" {
+		return fmt.Sprintf("warm handle of client %d and a cold handle see different lakes: %s (first = warm, second = cold)", c, d)
+	}
+	return ""
+}
+
+// RunOne runs client c's next operation to completion without the scheduler.
+func (r *StoreRun) RunOne(c int) *OpRecord {
+	if r.next[c] >= len(r.Ops[c]) {
+		return nil
+	}
+	n := len(r.History)
+	out, ok := r.begin(c, false)
+	if !ok {
+		return r.History[n]
+	}
+	r.Grants++
+	rec := r.cur[c]
+	r.finish(c, out)
+	return rec
+}
